@@ -18,7 +18,7 @@ pub static DEF: PropDef = PropDef {
         "the current text of a row is the concatenation of its string fields as stored in the row JSON on that peer",
         "rows written while the entity's indexing was switched off are not demanded either way until they are written again",
     ],
-    cases: |t| t.pick(80, 2000),
+    cases: |t| t.pick(160, 2000),
     shards: |t| t.pick(12, 16),
     case_budget_s: |_| 240,
     min_conclusive: |t| t.pick(30, 600),
